@@ -144,6 +144,8 @@ def run_unit(unit, repo=None, rlimit=30, vacuity=False, outdir=OUT, seed=None, k
         cmd += ['--log', 'air', '--log-dir', os.path.basename(logdir)]
     if seed is not None:
         cmd += ['--smt-option', 'smt.random_seed=%d' % seed]
+    for o in meta.get('smt_options', []):
+        cmd += ['--smt-option', o]
     res['checker_cmd'] = ' '.join(cmd)
     try:
         p = subprocess.run(cmd, cwd=os.path.dirname(path), capture_output=True, text=True, timeout=3600)
